@@ -175,7 +175,7 @@ CHECKS['C18'] = dict(
 CHECKS['C19'] = dict(
     technique='runtime monitor: response document and CSV of real planning() runs compared with an independent '
               'response builder reading the propagated paths, both receivers and the request objects; aggregation '
-              'recomputed from the input; CSV pass flag differential with a moved threshold; event log of every '
+              'recomputed from the input; CSV pass flag differential with a moved threshold (between worst and average channel, exactly on the worst channel, 0.01 dB above it); event log of every '
               'propagation (figures copied when it ends) compared with what is reported; reported mode vs reported figures '
               '(baud-rate gap between the 0.1 nm and the in-band figures)',
     text='Every response entry and CSV row of generated batches (served, every blocking reason, bidirectional, '
